@@ -98,8 +98,9 @@ structure Sectors where
 def Sectors.get (s : Sectors) (id : Nat) (rd : Bytes) : Bytes × Sectors × Bytes :=
   let start := id * s.size
   let end_ := start + s.size
-  let data := if end_ > s.data.length then s.data ++ rd.take (end_ - s.data.length) else s.data
-  let rd' := if end_ > s.data.length then rd.drop (end_ - s.data.length) else rd
+  let dl := s.data.length
+  let data := if end_ > dl then s.data ++ rd.take (end_ - dl) else s.data
+  let rd' := if end_ > dl then rd.drop (end_ - dl) else rd
   let len := data.length
   ((data.drop (min start len)).take (min end_ len - min start len), { s with data := data }, rd')
 
